@@ -282,7 +282,7 @@ class Interp:
         self.cur_line = None
         self.cur_mod = None
         self.inline_ok = set()
-        self.extra_axioms = []
+        self.extra_axioms = sym.EXTRA
         self.protect = {}                 # id(obj) -> label : user data objects (frame obligations)
 
     # ---------------------------------------------------------------- bookkeeping
